@@ -1169,6 +1169,18 @@ def check_text(conn, text, acc, kind, must_accept=False):
         acc.add('c_accepted_statement_kinds', type(o.node).__name__)
         if kind != 'corpus':
             acc.sample({'accepted_text': text[:100]}, limit=3)
+        # a text containing a date-shaped token (dddd-dd-dd, which the grammar reads as ONE date literal) that is not a
+        # calendar date is one of the ill-formed inputs the property enumerates: it must be rejected, not re-read as
+        # arithmetic
+        if kind == 'literal':
+            import datetime as _dt
+            import re as _re
+            for m in _re.finditer(r'(?<![\d.])(\d{4})-(\d{2})-(\d{2})(?![\d-])', text):
+                try:
+                    _dt.date(int(m.group(1)), int(m.group(2)), int(m.group(3)))
+                except ValueError:
+                    acc.violation('accept:invalid-calendar-date', f'{text!r} contains the invalid calendar date {m.group(0)} and is accepted (parsed as {type(o.node).__name__})', case)
+                    break
     else:
         acc.count(f'c_rejected_at:{o.stage}')
         if must_accept:
